@@ -50,6 +50,7 @@ type G struct {
 	OpPairs                                                           map[string]int
 	tracers                                                           map[string]*m.Func
 	noEmpty                                                           int
+	CyclesAvoided                                                     int
 }
 
 // New creates a generator.
@@ -691,7 +692,7 @@ func (g *G) Assign(d int) m.Stmt {
 	switch {
 	case v.Ty.K == m.Arr && v.Len > 0 && g.chance("elem", 1, 2):
 		i := g.intn("idx", 2*v.Len) - v.Len
-		return &m.Assign{Target: &m.Index{X: g.useVar(v), I: m.NumLit(float64(i)), Ty: v.Ty.Sub}, Val: g.Conv(v.Ty.Sub, d)}
+		return &m.Assign{Target: &m.Index{X: g.useVar(v), I: m.NumLit(float64(i)), Ty: v.Ty.Sub}, Val: g.slotVal(v.Ty.Sub, d)}
 	case v.Ty.K == m.Map && g.chance("field", 2, 3):
 		k := keyPool[g.intn("key", len(keyPool))]
 		found := false
@@ -702,9 +703,9 @@ func (g *G) Assign(d int) m.Stmt {
 			v.Keys = append(v.Keys, k)
 		}
 		if g.chance("dot", 1, 2) {
-			return &m.Assign{Target: &m.Dot{X: g.useVar(v), Key: k, Ty: v.Ty.Sub}, Val: g.Conv(v.Ty.Sub, d)}
+			return &m.Assign{Target: &m.Dot{X: g.useVar(v), Key: k, Ty: v.Ty.Sub}, Val: g.slotVal(v.Ty.Sub, d)}
 		}
-		return &m.Assign{Target: &m.Index{X: g.useVar(v), I: m.StrLit(k), Ty: v.Ty.Sub}, Val: g.Conv(v.Ty.Sub, d)}
+		return &m.Assign{Target: &m.Index{X: g.useVar(v), I: m.StrLit(k), Ty: v.Ty.Sub}, Val: g.slotVal(v.Ty.Sub, d)}
 	}
 	val := g.Conv(v.Ty, d)
 	// reassigning a container forgets what we knew about its size and keys
@@ -713,6 +714,26 @@ func (g *G) Assign(d int) m.Stmt {
 		g.forgetAliases(v, n, keys)
 	}
 	return &m.Assign{Target: g.useVar(v), Val: val}
+}
+
+// slotVal is a value stored into an element or field of an existing container.
+// A container reachable from itself through an `any` slot is a cyclic value;
+// printing or comparing one overflows the host stack (open finding), so values
+// stored into any-typed slots are basic values only. CyclesAvoided counts them.
+func (g *G) slotVal(ty *m.Type, d int) m.Expr {
+	hasAny := false
+	for t := ty; t != nil; t = t.Sub {
+		hasAny = hasAny || t.K == m.Any
+	}
+	if !hasAny {
+		return g.Conv(ty, d)
+	}
+	g.CyclesAvoided++
+	if ty.K == m.Any {
+		bt := []*m.Type{m.TNum, m.TStr, m.TBool}[g.intn("basic", 3)]
+		return m.AsAny(g.Natural(bt, min(d, 2)))
+	}
+	return g.Literal(ty, 1)
 }
 
 func (g *G) forgetAliases(v *VarInfo, n int, keys []string) {
